@@ -50,6 +50,13 @@ def auto_schedules(quick):
         sch.append([{"op": "Config", "ctr0": c0}, {"op": "Auto", "drop": [], "dup": []}])
         sch.append([{"op": "Config", "ctr0": c0}, {"op": "Auto", "drop": [2], "dup": [3]}])
         sch.append([{"op": "Config", "ctr0": c0}, {"op": "Auto", "drop": [1, 4], "dup": []}])
+    # the TX buffer of a node is busy with another exchange's message (a slow network send) when the back-off of its
+    # reliable message expires, and the acknowledgement arrives while the sender is queued for the buffer
+    for node, held in ((0, 4), (1, 3)):
+        for at in ((300, 355) if quick else (250, 300, 340, 355, 362)):
+            for slow_ms in ((700,) if quick else (400, 700, 1500)):
+                for delay_ms in ((600,) if quick else (450, 600, 900)):
+                    sch.append([{"op": "Auto", "drop": [], "dup": [], "slow": [[node, 2 if node == 0 else 1, slow_ms]], "delay": [[held, delay_ms]], "second": [node, at]}])
     # the session under test is a PASE session (the reliability layer does not depend on the session kind)
     for f in ({"drop": [], "dup": []}, {"drop": [1], "dup": []}, {"drop": [2], "dup": [3]}, {"drop": [3, 4], "dup": []}, {"drop": [], "dup": [1, 2]}, {"drop": [2, 5], "dup": [6]}):
         sch.append([{"op": "Config", "mode": "pase"}, dict({"op": "Auto"}, **f)])
